@@ -130,7 +130,8 @@ PROPS = {
     ),
     'C05': dict(
         v=[('u_mb2_dstlen', ['*Tag::dst_len', '*_BASE_SIZE', 'DynSizedStructure::dst_len', 'MaybeDynSized::payload', 'MaybeDynSized::as_bytes',
-                             'CommandLineTag::cmdline', 'BootLoaderNameTag::name', 'ModuleTag::cmdline']),
+                             'CommandLineTag::cmdline', 'BootLoaderNameTag::name', 'ModuleTag::cmdline',
+                             'MemoryMapTag::memory_areas', 'SmbiosTag::tables']),
            ('u_hdr_builder', ['InformationRequestHeaderTag::dst_len', 'INFOREQ_BASE_SIZE']),
            ('u_mb2_fb', ['FramebufferTag::buffer_type', 'Reader::*']),
            ('u_mb2_efi', ['EFIMemoryAreaIter::new', 'EFIMemoryAreaIter::next', 'EFIMemoryMapTag::memory_areas']),
@@ -346,7 +347,11 @@ PROPS['C16']['v'] = [('u_mb2_dstlen', ['*Tag::dst_len', '*_BASE_SIZE', 'DynSized
 # colour information is decoded by buffer_type + Reader (proved for ALL palette lengths; the Kani harness bounds n <= 4)
 PROPS.setdefault('C04', dict(v=[], k_quick=[], k_thorough=[]))
 PROPS['C04']['v'] = [('u_mb2_fb', ['FramebufferTypeId::try_from', 'FramebufferTag::buffer_type', 'Reader::*']),
-                     ('u_mb2_core', ['TagTypeId::eq', 'TagType::eq'])]
+                     ('u_mb2_core', ['TagTypeId::eq', 'TagType::eq']),
+                     ('u_mb2_dstlen', ['MemoryMapTag::entry_size', 'MemoryMapTag::entry_version', 'MemoryMapTag::memory_areas',
+                                       'SmbiosTag::major', 'SmbiosTag::minor', 'SmbiosTag::tables',
+                                       'ModuleTag::start_address', 'ModuleTag::end_address', 'ModuleTag::cmdline',
+                                       'CommandLineTag::cmdline', 'BootLoaderNameTag::name'])]
 PROPS['C17']['v'] = [('u_mb2_dstlen', ['CommandLineTag::dst_len', 'BootLoaderNameTag::dst_len', 'ModuleTag::dst_len', 'COMMANDLINETAG_BASE_SIZE', 'BOOTLOADERNAMETAG_BASE_SIZE', 'MODULETAG_BASE_SIZE',
                                        'CommandLineTag::cmdline', 'BootLoaderNameTag::name', 'ModuleTag::cmdline'])]
 PROPS.setdefault('C11', dict(v=[], k_quick=[], k_thorough=[]))
